@@ -34,9 +34,12 @@ MATCH_ASSUME = [
     'RULE_OK (precondition): flags within the 9 BusMatchFlags bits; not both PATH and PATH_NAMESPACE; MESSAGE_TYPE => message_type != INVALID; '
     'a string field is a NUL-terminated heap block iff its flag is set (destination NULL otherwise); ARGS => 1 <= args_len <= 64, args/arg_lens have args_len+1 slots, '
     'slot k is NULL/0 or a NUL-terminated block of exactly (arg_lens[k] & ~FLAGS)+1 bytes, never both IS_PATH and NAMESPACE (established by bus_match_rule_set_* / the parser: units C07.setters, C07.parse, C07.parse_arg)',
+    'RULE_OK: a path / path_namespace value is not empty and begins with \'/\' (the parser admits it only through _dbus_validate_path: C07.parse + C16.path)',
+    'the rule sender is a symbolic string of <= 8 bytes or the literal org.freedesktop.DBus (the one longer name the matcher compares against)',
     'already_matched is a subset of MESSAGE_TYPE|INTERFACE and those keys do match (get_recipients_from_list: pools are indexed by type and interface)',
     'strings of the message and of the rule have symbolic content of at most 8 bytes (the args loop itself is not unwound)',
-    'string-like message arguments point into the message body behind their 4-byte length word (wire format)',
+    'string-like message arguments point into the message body behind their 4-byte length word (wire format); the iterator contract delivers one arbitrary argument per index (arbitrary type code; STRING / OBJECT_PATH content <= 8 bytes without NUL) and DBUS_TYPE_INVALID from the end on',
+    'all set slots of rule->args share one symbolic block (the matcher only reads; the loop contract leaves one arbitrary iteration)',
 ]
 for variant, defs in (('match', []), ('match.nonempty', ['VERIF_ASSUME_NONEMPTY_PATHARG'])):
     UNITS.append(dict(
@@ -257,3 +260,19 @@ UNITS.append(dict(
 for _u in UNITS:
     if _u['name'] in ('C07.match', 'C07.match.nonempty'):
         _u['finder'] = 'C07.find.match'
+
+UNITS.append(dict(name='C07.rule_equal', props=['C07'], kind='B', route='plain', bus=True,
+    tus=[dict(file='bus/signals.c', include_as='VERIF_TU')], harness='harness/c07_equal.c', unwind=5, timeout=900, expect_s=30,
+    trace_is_execution=False, must_have=['equal.post1'],
+    bounds={'key_string_bytes': 2, 'argument_matches': 2},
+    functions=[dict(name='match_rule_equal', file='bus/signals.c', status='bounded', note='every key symbolic; strings <= 2 bytes; <= 2 argument matches')],
+    assumptions=['RULE_OK as established by the bus_match_rule_set_* setters (units C07.setters / C07.set_arg.*)']))
+
+# RemoveMatch: a failing call must not also be acknowledged (red on the unchanged tree: known finding KF-C07-removematch-double-reply)
+import copy as _copy
+_u = _copy.deepcopy([u for u in UNITS if u['name'] == 'C07.driver.remove_match'][0])
+_u['name'] = 'C07.driver.remove_match.noack'
+_u['props'] = ['C07', 'C05']
+_u['defines'] = _u['defines'] + ['VERIF_NO_ACK_ON_FAILURE=1']
+_u['must_have'] = ['post8']
+UNITS.append(_u)
